@@ -517,7 +517,7 @@ def rule_f(ctx, out):
     names = sorted(set(eng.rule_names()))
     if len(names) < 25:
         raise AnalysisError(f"apply_cond_transformation: only {len(names)} rule names found")
-    stats, fails = cr.examine(eng, fam, fam.named())
+    stats, fails = cr.examine(eng, fam, fam.named(wrap_all=ctx.tier == "thorough"))
     scope = "named patterns and their one-step perturbations"
     if ctx.tier == "thorough":
         st2, f2 = cr.examine_generic_parallel(ctx, CTX_CFG)
